@@ -1264,14 +1264,23 @@ impl<'r> Builder<'r> {
                     } else {
                         self.hex_lit(Some(24))
                     };
-                    self.cur_tx.cardano.push(Cardano::PlutusWitness { version: E::Int(v), script: s });
+                    self.cur_tx.cardano.push(Cardano::PlutusWitness { version: E::Int(v), script: s.clone() });
                     self.tag("plutus-witness");
+                    if self.rng.chance(1, 6) {
+                        // the same witness written twice: the witness set is a set
+                        self.cur_tx.cardano.push(Cardano::PlutusWitness { version: E::Int(v), script: s });
+                        self.tag("witness-written-twice");
+                    }
                 }
                 _ => {
                     let mut script = vec![0x82, 0x00, 0x58, 0x1c];
                     script.extend(self.rng.bytes(28));
-                    self.cur_tx.cardano.push(Cardano::NativeWitness { script: E::Hex(script) });
+                    self.cur_tx.cardano.push(Cardano::NativeWitness { script: E::Hex(script.clone()) });
                     self.tag("native-witness");
+                    if self.rng.chance(1, 6) {
+                        self.cur_tx.cardano.push(Cardano::NativeWitness { script: E::Hex(script) });
+                        self.tag("witness-written-twice");
+                    }
                 }
             }
         }
